@@ -538,6 +538,91 @@ def _ls(xs):
     return "[" + ", ".join(lstr(x) for x in xs) + "]"
 
 
+# ---------------------------------------------------------------------------------------------------------------
+# check_results as the verifier of the published rows
+# ---------------------------------------------------------------------------------------------------------------
+
+PARSERS = ("literal_eval",)
+
+
+def analyse_verifier(stage):
+    """What `fault_schedule_sound_with_verifier` needs about check_results: every chain entry is parsed (`literal_eval`) INSIDE the
+    time-limited block whose `try` has a handler taking the parse error, that handler puts the function on the un-merge list, and the
+    only way a function leaves the loop before that `try` is the listed skip conditions (text of the tests guarding a
+    `continue`/`break`/`return`, in source order).  Fails closed: a parse outside the block, no parse at all, several time-limited
+    blocks, an unguarded `continue`, a skip inside the block before the parse -> ExtractError."""
+    tree = extract._parse(stage, REL)
+    fn = extract.find_def(tree, "check_results")
+    blocks = _blocks(fn)
+    if len(blocks) != 1:
+        raise ExtractError("check_results: expected exactly one time-limited block, found %d" % len(blocks))
+    tr, w, _ = blocks[0]
+    # the loop over the functions that holds the try
+    loops = [n for n in ast.walk(fn) if isinstance(n, (ast.For, ast.While)) and any(d is tr for d in ast.walk(n))]
+    if not loops:
+        raise ExtractError("check_results: the time-limited block is not inside a loop over the functions")
+    loop = max(loops, key=lambda n: sum(1 for _ in ast.walk(n)))         # outermost
+    if tr not in loop.body:
+        raise ExtractError("check_results: the try of the time-limited block is not a direct statement of the loop over the functions")
+    pre = loop.body[:loop.body.index(tr)]
+    skips = []
+
+    def jumps(stmts):
+        return [n for s_ in stmts for n in ast.walk(s_) if isinstance(n, (ast.Continue, ast.Break, ast.Return))]
+
+    def scan(stmts, where):
+        for st in stmts:
+            if isinstance(st, (ast.Continue, ast.Break, ast.Return)):
+                raise ExtractError("check_results line %d: unconditional %s before the parameter maps are checked" % (st.lineno, type(st).__name__))
+            if isinstance(st, ast.If):
+                if jumps(st.body) or jumps(st.orelse):
+                    if jumps(st.orelse) or not all(isinstance(x, (ast.Continue, ast.Break, ast.Return, ast.Expr, ast.Pass)) for x in st.body):
+                        raise ExtractError("check_results line %d: cannot read the skip condition" % st.lineno)
+                    skips.append(where + ast.unparse(st.test))
+                continue
+            if isinstance(st, (ast.For, ast.While, ast.With, ast.Try, ast.Match)) and jumps([st]):
+                # a jump inside an inner loop only leaves that loop if it is break/continue of it; anything else cannot be decided here
+                inner = [n for n in jumps([st]) if isinstance(n, ast.Return) or not isinstance(st, (ast.For, ast.While))]
+                if inner:
+                    raise ExtractError("check_results line %d: a jump inside a compound statement before the parameter maps are checked" % st.lineno)
+
+    scan(pre, "")
+    # inside the try: statements before the with, and the with body up to the parse
+    parses = [c for c in ast.walk(fn) if isinstance(c, ast.Call) and (getattr(c.func, "attr", None) in PARSERS or getattr(c.func, "id", None) in PARSERS)]
+    if not parses:
+        raise ExtractError("check_results: no literal_eval of the recorded parameter maps found")
+    inside = all(any(d is c for b in w.body for d in ast.walk(b)) for c in parses)
+    for st in tr.body:
+        if st is w:
+            break
+        if jumps([st]):
+            raise ExtractError("check_results line %d: a jump inside the try before the time-limited block" % st.lineno)
+    # a `continue` inside the block ahead of (or around) the parse would let entries through unparsed
+    for n in jumps(w.body):
+        raise ExtractError("check_results line %d: a jump inside the time-limited block" % n.lineno)
+    # ... and so would a condition around the parse: the parse must sit under loops only (one parse per entry)
+    for c in parses:
+        for b in w.body:
+            for n in ast.walk(b):
+                if isinstance(n, (ast.If, ast.Try, ast.IfExp, ast.Match)) and any(d is c for d in ast.walk(n)):
+                    raise ExtractError("check_results line %d: the parse of a recorded map is conditional" % n.lineno)
+    taking = None
+    for h in tr.handlers:
+        if any(n in CATCH_ALL for n in _hnames(h)):
+            taking = h
+            break
+    # an earlier clause naming only narrower classes (e.g. TimeoutException alone) does not take a parse error
+    catches = taking is not None and not any(isinstance(s_, ast.Raise) for s_ in ast.walk(ast.Module(body=taking.body, type_ignores=[])))
+    happ = []
+    if taking is not None:
+        if any(isinstance(s_, (ast.If, ast.For, ast.While, ast.Try, ast.With, ast.Continue, ast.Break, ast.Return)) for s_ in taking.body):
+            raise ExtractError("check_results line %d: the handler that takes a parse error is not straight-line" % taking.lineno)
+        for kind, nm, _ in _all_effects(taking.body, set()):
+            if kind in ("append", "aug"):
+                happ.append(nm)
+    return dict(parse_inside=inside, catches=catches, happ=sorted(set(happ)), skips=skips)
+
+
 @extract.extractor("Fault")
 def gen(stage):
     bl = analyse(stage)
@@ -551,5 +636,11 @@ def gen(stage):
         _ls(b["saved"]), "true" if b["inplace"] else "false", ", ".join(map(str, b["interceptors"])),
         ", ".join(_ls(g) for g in b["groups"]), _ls(b["truncates"]), _ls(b["hmut"])) for b in bl)
     t += "\n  ]\n"
+    v = analyse_verifier(stage)
+    t += ("\n/-- `check_results` as the verifier of the published rows: where the recorded maps are parsed, what takes a parse error, and the\n"
+          "only conditions under which a function is not checked at all -/\nstructure Verifier where\n  parseInsideTry : Bool\n"
+          "  handlerTakesParseError : Bool\n  handlerAppends : List String\n  skips : List String\n  deriving Repr, DecidableEq\n\n"
+          "def verifier : Verifier := ⟨%s, %s, %s, %s⟩\n" % ("true" if v["parse_inside"] else "false", "true" if v["catches"] else "false",
+                                                          _ls(v["happ"]), _ls(v["skips"])))
     t += extract.footer("Fault")
     return t
